@@ -306,3 +306,138 @@ pub fn big_data_colscale(variant: usize, d: usize) -> Vec<f64> {
         })
         .collect()
 }
+
+// ------------------------------------------------------------------------------------------------
+// round 5: from-data instances with many rows (more than one 16-row block, up to runs longer than
+// 64), and vectors whose components differ by many orders of magnitude
+
+/// Row counts of the many-rows family. Quick: one block of 16 plus one row, just below / at / just
+/// above two blocks, three blocks with a partial / full last block, four blocks, four plus one row,
+/// five, seven and eight blocks. Thorough: every m in 17..=288 (up to 18 blocks) and row counts around
+/// 32 and 64 blocks.
+pub fn many_rows_counts(thorough: bool) -> Vec<usize> {
+    if thorough {
+        let mut v: Vec<usize> = (17..=288).collect();
+        v.extend([511, 512, 513, 1000, 1024, 1025, 1039]);
+        v
+    } else {
+        vec![17, 31, 32, 33, 40, 47, 48, 64, 65, 79, 100, 113]
+    }
+}
+
+/// names of the deterministic row patterns of `many_rows_data`
+pub const MANY_PATTERNS: &[&str] = &["(i^2 + 3ic + c) mod 7 - 3", "(i^2 + 3ic + c + popcount(i)) mod 7 - 3", "(i(i+1)/2 + ci + popcount(3i+c)) mod 5 - 2"];
+
+/// Entry (row i, column c) of the `pattern`-th deterministic small-integer data set. Pattern 0 has
+/// period 7 in i; patterns 1 and 2 contain the binary digit sum of the row index and are not periodic.
+pub fn many_rows_entry(pattern: usize, i: usize, c: usize) -> f64 {
+    match pattern {
+        0 => ((i * i + 3 * i * c + c) % 7) as f64 - 3.0,
+        1 => ((i * i + 3 * i * c + c + i.count_ones() as usize) % 7) as f64 - 3.0,
+        2 => ((i * (i + 1) / 2 + c * i + (3 * i + c).count_ones() as usize) % 5) as f64 - 2.0,
+        other => panic!("unknown many-rows pattern {}", other),
+    }
+}
+
+pub fn many_rows_data(d: usize, m: usize, pattern: usize) -> Vec<Vec<f64>> {
+    (0..m).map(|i| (0..d).map(|c| many_rows_entry(pattern, i, c)).collect()).collect()
+}
+
+/// Is the sample covariance of these small-integer rows positive definite? Exact, and usable for
+/// thousands of rows (where the scatter-matrix minors of `full_rank` leave i128): the centred columns
+/// are linearly independent iff [1 | X] has full column rank iff its (d+1) x (d+1) integer Gram
+/// matrix (entries <= m * max x^2) has positive leading minors.
+pub fn full_rank_gram(rows: &[Vec<f64>]) -> bool {
+    let n = rows[0].len();
+    if rows.len() < n + 1 {
+        return false;
+    }
+    let ext: Vec<Vec<i128>> = rows.iter().map(|r| std::iter::once(1i128).chain(r.iter().map(|v| *v as i128)).collect()).collect();
+    let mut g = vec![vec![0i128; n + 1]; n + 1];
+    for r in &ext {
+        for i in 0..=n {
+            for j in 0..=n {
+                g[i][j] += r[i] * r[j];
+            }
+        }
+    }
+    oracle::ileading_minors(&g).iter().all(|d| *d > 0)
+}
+
+/// The 5 query points of the many-rows family (first d coordinates; the first coordinates are
+/// pairwise different, so the points are distinct for every d).
+pub fn many_rows_queries(d: usize) -> Vec<Vec<f64>> {
+    let p: [[f64; 4]; 5] = [[0.0, 0.0, 0.0, 0.0], [1.0, 0.0, 0.0, 1.0], [-1.0, 2.0, 0.0, 0.0], [2.0, 1.0, -1.0, -2.0], [-3.0, -1.0, 2.0, 1.0]];
+    p.iter().map(|v| v[..d].to_vec()).collect()
+}
+
+/// The large coordinates L and the tiny coordinates g of the wide-range catalogue of one type: the
+/// vectors (.., L, .., g, ..) share L and differ only in g, by a gap that is 18 to 251 orders of
+/// magnitude below L but well inside the range of the type — as are the gap's square for the pairs
+/// (3e-12, 2e-12) of f32 and (3e-151, 1e-151), (1e-12, 2e-12) of f64; the pair (1e-20, 0) of f32 has a
+/// subnormal square (1e-40), i.e. belongs to the input class of the known unscaled-squares findings.
+pub fn wide_values(ty: &str) -> (&'static [f64], &'static [f64]) {
+    if ty == "f32" {
+        (&[1e6, 1e12], &[3e-12, 2e-12, 1e-20, 0.0])
+    } else {
+        (&[1e12, 1e100], &[3e-151, 1e-151, 1e-12, 2e-12])
+    }
+}
+
+/// Wide-range catalogue of length `len` (2..=4): every vector has one large coordinate L, one tiny
+/// coordinate g and the fixed fillers 0.5, -3 in the remaining positions. Reduced: L first, g second,
+/// L positive (2 * 4 = 8 vectors). Full: every ordered pair of positions (L at a, g at b) and both
+/// signs of L (len (len-1) * 16 vectors).
+pub fn wide(ty: &str, len: usize, full: bool) -> Vec<(String, Vec<f64>)> {
+    assert!((2..=4).contains(&len));
+    let (ls, gs) = wide_values(ty);
+    let fillers = [0.5, -3.0];
+    let layouts: Vec<(usize, usize)> = if full { (0..len).flat_map(|a| (0..len).filter(move |b| *b != a).map(move |b| (a, b))).collect() } else { vec![(0, 1)] };
+    let signs: &[f64] = if full { &[1.0, -1.0] } else { &[1.0] };
+    let mut out = Vec::new();
+    for (a, b) in &layouts {
+        for s in signs {
+            for l in ls {
+                for g in gs {
+                    let mut v = Vec::with_capacity(len);
+                    let mut f = fillers.iter();
+                    for k in 0..len {
+                        v.push(if k == *a { s * l } else if k == *b { *g } else { *f.next().unwrap() });
+                    }
+                    out.push((format!("L={:e} at {}, tiny={:e} at {}", s * l, a, g, b), v));
+                }
+            }
+        }
+    }
+    dedup(out)
+}
+
+/// Self-test of the family definitions: the Gram-matrix rank test agrees with the scatter-matrix one
+/// on every sequence of 3 and 4 rows of S3^2 and on every sequence of 2 and 3 rows of S5, and the
+/// wide-range catalogues have the stated sizes. Err = machinery error.
+pub fn self_test() -> Result<(), String> {
+    for (d, ms) in [(2usize, [3usize, 4]), (1, [2, 3])] {
+        let pts = data_points(d);
+        let idx: Vec<f64> = (0..pts.len()).map(|k| k as f64).collect();
+        for m in ms {
+            let mut bad = None;
+            oracle::for_each_tuple(&idx, m, |t| {
+                let rows: Vec<Vec<f64>> = t.iter().map(|k| pts[*k as usize].clone()).collect();
+                if full_rank(&rows) != full_rank_gram(&rows) {
+                    bad = Some(rows);
+                }
+            });
+            if let Some(rows) = bad {
+                return Err(format!("full_rank and full_rank_gram disagree on {:?}", rows));
+            }
+        }
+    }
+    for ty in ["f64", "f32"] {
+        for len in 2..=4usize {
+            if wide(ty, len, false).len() != 8 || wide(ty, len, true).len() != len * (len - 1) * 16 {
+                return Err(format!("wide-range catalogue {} len {} has an unexpected size", ty, len));
+            }
+        }
+    }
+    Ok(())
+}
